@@ -37,6 +37,14 @@ pub struct GeoCase {
     /// `{bar}` without a width in the template: 20 columns
     #[serde(default)]
     default_width: bool,
+    /// how the style came about: 0 with_template(t).progress_chars(c); 1 default_bar().progress_chars(c).template(t);
+    /// 2 progress_chars(c) installed on the bar first, then pb.set_style(pb.style().template(t))
+    #[serde(default)]
+    order: u8,
+    /// the bar is finished when the frame is drawn: 0 abandon() after the position was set;
+    /// 1 finish() first, then length and position are set; 2 abandon_with_message()
+    #[serde(default)]
+    end: Option<u8>,
 }
 
 struct Parsed {
@@ -156,10 +164,10 @@ struct Rig {
 }
 
 fn rig(chars: &str, template: &str, cols: u16) -> Result<Rig, String> {
-    rig_in(chars, template, cols, false)
+    rig_in(chars, template, cols, false, 0)
 }
 
-fn rig_in(chars: &str, template: &str, cols: u16, in_multi: bool) -> Result<Rig, String> {
+fn rig_in(chars: &str, template: &str, cols: u16, in_multi: bool, order: u8) -> Result<Rig, String> {
     let frac = Arc::new(AtomicU32::new(0));
     let f2 = frac.clone();
     let chars = chars.to_string();
@@ -167,7 +175,11 @@ fn rig_in(chars: &str, template: &str, cols: u16, in_multi: bool) -> Result<Rig,
     let vt = VTerm::raw(500, cols as usize);
     let vt2 = vt.clone();
     let pb = catch(move || {
-        let style = ProgressStyle::with_template(&template).expect("template").progress_chars(&chars).with_key("frac", frac_key(f2));
+        let style = match order % 3 {
+            0 => ProgressStyle::with_template(&template).expect("template").progress_chars(&chars),
+            _ => ProgressStyle::default_bar().progress_chars(&chars).template(if order % 3 == 1 { &template } else { "{pos}" }).expect("template"),
+        }
+        .with_key("frac", frac_key(f2));
         let (pb, mp) = if in_multi {
             let mp = indicatif::MultiProgress::with_draw_target(ProgressDrawTarget::term_like(vt2.boxed()));
             (mp.add(ProgressBar::new(1)), Some(mp))
@@ -175,6 +187,9 @@ fn rig_in(chars: &str, template: &str, cols: u16, in_multi: bool) -> Result<Rig,
             (ProgressBar::with_draw_target(Some(1), ProgressDrawTarget::term_like(vt2.boxed())), None)
         };
         pb.set_style(style);
+        if order % 3 == 2 {
+            pb.set_style(pb.style().template(&template).expect("template"));
+        }
         (pb, mp)
     })?;
     let (pb, mp) = pb;
@@ -184,8 +199,15 @@ fn rig_in(chars: &str, template: &str, cols: u16, in_multi: bool) -> Result<Rig,
 impl Rig {
     /// set (len, pos), draw, return (line, fraction)
     fn draw(&self, len: Option<u64>, pos: u64) -> Result<(String, f32), String> {
+        self.draw_end(len, pos, None)
+    }
+
+    fn draw_end(&self, len: Option<u64>, pos: u64, end: Option<u8>) -> Result<(String, f32), String> {
         let pb = &self.pb;
         catch(|| {
+            if end.map(|e| e % 3) == Some(1) {
+                pb.finish();
+            }
             match len {
                 Some(l) => pb.update(|s| {
                     s.set_len(l);
@@ -196,6 +218,11 @@ impl Rig {
                     pb.update(|s| s.set_pos(pos));
                 }
             };
+            match end.map(|e| e % 3) {
+                Some(0) => pb.abandon(),
+                Some(2) => pb.abandon_with_message("stopped"),
+                _ => {}
+            }
         })?;
         let lines = self.vt.last_frame_lines()?;
         if lines.len() != self.nlines {
@@ -214,8 +241,8 @@ fn run_geo(c: &GeoCase) -> CaseResult {
             let template = if c.default_width { "{bar}|{frac}".to_string() } else { format!("{{bar:{}}}|{{frac}}", c.width) };
             let c = &GeoCase { width: if c.default_width { 20 } else { c.width }, ..c.clone() };
             v.label_if(c.default_width, "bar_without_a_width");
-            let r = rig(&c.chars, &template, u16::MAX).map_err(|p| Fail::new("panic", format!("building {template:?} chars {:?} panicked: {p}", c.chars)))?;
-            let (line, frac) = r.draw(c.len, c.pos).map_err(|p| Fail::new("panic", format!("drawing {template:?} chars {:?} len {:?} pos {}: {p}", c.chars, c.len, c.pos)))?;
+            let r = rig_in(&c.chars, &template, u16::MAX, false, c.order).map_err(|p| Fail::new("panic", format!("building {template:?} chars {:?} panicked: {p}", c.chars)))?;
+            let (line, frac) = r.draw_end(c.len, c.pos, c.end).map_err(|p| Fail::new("panic", format!("drawing {template:?} chars {:?} len {:?} pos {}: {p}", c.chars, c.len, c.pos)))?;
             let bar = line.strip_suffix('|').ok_or_else(|| Fail::new("shape", format!("line {line:?} lost its literal")))?;
             let bar = strip_field_pad(bar, c.width as usize, cwidth)?;
             let (filled, cells, _) = check_bar(bar, &chars, cwidth, c.width as usize, c.len, c.pos, frac)?;
@@ -242,7 +269,7 @@ fn run_geo(c: &GeoCase) -> CaseResult {
                     nlines += 1;
                 }
             }
-            let mut r = rig_in(&c.chars, &template, *term, c.in_multi).map_err(|p| Fail::new("panic", format!("building {template:?} panicked: {p}")))?;
+            let mut r = rig_in(&c.chars, &template, *term, c.in_multi, c.order).map_err(|p| Fail::new("panic", format!("building {template:?} panicked: {p}")))?;
             r.nlines = nlines;
             r.bar_line = bar_line;
             if let Some(w0) = c.resized_from {
@@ -255,7 +282,7 @@ fn run_geo(c: &GeoCase) -> CaseResult {
             v.label_if(c.in_multi, "wide_bar_inside_multi_progress");
             v.label_if(chars.last().map_or(false, |c| c.is_whitespace()), "blank_background_glyph");
             v.label_if(nlines > 1, "wide_bar_in_multi_line_template");
-            let (line, frac) = r.draw(c.len, c.pos).map_err(|p| Fail::new("panic", format!("drawing {template:?} on {term} columns: {p}")))?;
+            let (line, frac) = r.draw_end(c.len, c.pos, c.end).map_err(|p| Fail::new("panic", format!("drawing {template:?} on {term} columns: {p}")))?;
             let rest = console::measure_text_width(left) + console::measure_text_width(right);
             let bar = line
                 .strip_prefix(left.as_str())
@@ -276,6 +303,8 @@ fn run_geo(c: &GeoCase) -> CaseResult {
             v.label_if(cwidth == 2 && avail % 2 == 1, "odd_remainder");
         }
     }
+    v.label_if(c.order % 3 != 0, "template_set_after_progress_chars");
+    v.label_if(c.end.is_some() && c.len.map_or(false, |l| c.pos > 0 && c.pos < l), "finished_bar_short_of_its_length");
     Ok(v)
 }
 
@@ -336,8 +365,8 @@ fn geo_strategy() -> BoxedStrategy<GeoCase> {
         (prop_oneof![3 => 1u16..60, 1 => 60u16..300], "[a-z\\[ \u{e9}\u{4e16}]{0,8}", "[a-z\\] \u{e9}\u{4e16}]{0,8}"),
     );
     let extra = (proptest::option::weighted(0.3, "[a-z:. \u{e9}\u{4e16}]{0,12}"), proptest::option::weighted(0.3, "[a-z:. \u{e9}\u{4e16}]{0,12}"));
-    (chars_strategy(), width, len_pos_strategy(), wide, extra, any::<bool>(), proptest::option::weighted(0.3, 1u16..300))
-        .prop_map(|(chars, width, (len, pos), wide, extra, in_multi, resized_from)| GeoCase { default_width: wide.is_none() && width % 7 == 0, chars, width, len, pos, wide, extra, in_multi, resized_from })
+    (chars_strategy(), width, len_pos_strategy(), wide, extra, any::<bool>(), proptest::option::weighted(0.3, 1u16..300), prop_oneof![3 => Just(0u8), 1 => Just(1u8), 1 => Just(2u8)], proptest::option::weighted(0.25, 0u8..3))
+        .prop_map(|(chars, width, (len, pos), wide, extra, in_multi, resized_from, order, end)| GeoCase { default_width: wide.is_none() && width % 7 == 0, chars, width, len, pos, wide, extra, in_multi, resized_from, order, end })
         .boxed()
 }
 
@@ -456,12 +485,12 @@ pub fn property() -> Property {
             }),
             Box::new(Gen::<GeoCase> {
                 name: "random",
-                rule: "random distinct character sets of 2..=10 clusters (1 or 2 columns), width 0..=65535, (len,pos) incl. powers of two, u64::MAX, unknown length; 35% through literal{wide_bar}literal on terminals 1..300 columns (line width == W - (avail mod c)); non-trivial = 0 < pos < len with >= 2 cells",
+                rule: "random distinct character sets of 2..=10 clusters (1 or 2 columns), width 0..=65535, (len,pos) incl. powers of two, u64::MAX, unknown length; 35% through literal{wide_bar}literal on terminals 1..300 columns (line width == W - (avail mod c)); the template set before or after the characters (with_template().progress_chars(), progress_chars().template(), style().template() on the bar); a quarter of the bars abandoned or finished-then-resized before the frame; non-trivial = 0 < pos < len with >= 2 cells",
                 strategy: |_| geo_strategy(),
                 cases: |t| t.pick(60_000, 1_000_000),
                 run: run_geo,
                 signature: no_signature,
-                essential: &["partial_progress", "full", "double_width_cells", "huge_len", "two_chars", "wide_bar", "bar_without_a_width", "blank_background_glyph", "wide_bar_in_multi_line_template", "wide_bar_inside_multi_progress", "terminal_resized_between_frames", "rest_does_not_fit", "odd_remainder"],
+                essential: &["partial_progress", "full", "double_width_cells", "huge_len", "two_chars", "wide_bar", "bar_without_a_width", "blank_background_glyph", "wide_bar_in_multi_line_template", "wide_bar_inside_multi_progress", "terminal_resized_between_frames", "rest_does_not_fit", "odd_remainder", "template_set_after_progress_chars", "finished_bar_short_of_its_length"],
                 workers: w,
                 decode: None,
             }),
